@@ -111,7 +111,7 @@ func run(c *vk.Ctx) {
 		defer fs.Close()
 		faultSrvs = append(faultSrvs, faultSrv{eng, fs, ods})
 	}
-	nCases := c.Pick(200, 900)
+	nCases := c.Pick(200, 500)
 	sem.RunCases(c, base, "mem", nCases, gen.Options{WideEvery: 3, AlgebraEvery: 4, HierarchyEvery: 6}, 4, 8, func(i int, r *rand.Rand, p *sem.Prepared, contextual []*openfgav1.TupleKey) {
 		oneCase(c, i, r, p, contextual, servers, []*drive.Srv{trunc, trunc2})
 	})
